@@ -35,7 +35,7 @@ import (
 
 type nodeStats struct {
 	Ops, Genuine, Mutated, Accepted, Rejected, Panics, Execs                                                                                                                            int
-	Duplicates                                                                                                                                                                          int
+	Duplicates, LookAlikeCeremonies                                                                                                                                                     int
 	DuplicateHist                                                                                                                                                                       map[string]int
 	MutationHist                                                                                                                                                                        map[string]int
 	OutcomeHist                                                                                                                                                                         map[string]int
@@ -1158,7 +1158,14 @@ func runNodeDiff(outDir string, seed int64, tier string) {
 		cfgs = [][2]int{{3, 2}, {2, 2}, {4, 3}, {3, 3}, {5, 2}}
 	}
 	for i, cf := range cfgs {
+		// every second ceremony is held by participants whose names differ in a blank or a capital only: whoever looks a
+		// name up by anything but the name itself finds the wrong participant there
+		if i%2 == 1 {
+			clusterNames = []string{"dora", "dora ", " dora", "Dora", "dora\t"}[:cf[0]]
+			r.st.LookAlikeCeremonies++
+		}
 		r.scenario(outDir, cf[0], cf[1], i%2 == 1)
+		clusterNames = nil
 	}
 	r.errorResults(outDir)
 	r.ops.Flush()
